@@ -5,9 +5,14 @@ package main
 import (
 	"fmt"
 	"go/types"
+	"strconv"
+	"strings"
+	"sync"
 
 	"golang.org/x/tools/go/ssa"
 )
+
+var decodeMaxMu sync.RWMutex // guards cfg.DecodeMaxAt (set by harness options on every worker)
 
 func (it *Interp) cstr(v Val, what string) string {
 	s, ok := v.(*StrV)
@@ -300,6 +305,20 @@ func (it *Interp) intrinsic(name string, fn *ssa.Function, a []Val) Val {
 		case "no-injective-sprintf":
 			it.ex.cfg.InjectiveSprintf = false
 		default:
+			if strings.HasPrefix(o, "decode-max-at:") {
+				kv := strings.SplitN(strings.TrimPrefix(o, "decode-max-at:"), "=", 2)
+				n, err := strconv.Atoi(kv[len(kv)-1])
+				if len(kv) != 2 || err != nil {
+					it.fail("bad option %q", o)
+				}
+				decodeMaxMu.Lock()
+				if it.ex.cfg.DecodeMaxAt == nil {
+					it.ex.cfg.DecodeMaxAt = map[string]int{}
+				}
+				it.ex.cfg.DecodeMaxAt[kv[0]] = n
+				decodeMaxMu.Unlock()
+				return nil
+			}
 			it.fail("unknown option %s", o)
 		}
 		return nil
